@@ -430,6 +430,17 @@ class Machine:
             for c in top.get("termsim_when", ()):
                 if self.cond(c):
                     return self._finish({"simulationTerminationCondition"}, n_actions)
+            if main is not None:
+                # `terminate simulation when` of the running sub-scenarios
+                stack = [main]
+                while stack:
+                    inst = stack.pop(0)
+                    if not inst["running"]:
+                        continue
+                    for c in inst["def"].get("termsim_when", ()):
+                        if self.cond(c):
+                            return self._finish({"simulationTerminationCondition"}, n_actions)
+                    stack = [x for x in inst["subs"] if x["running"]] + stack
             if max_steps and self.t >= max_steps:
                 return self._finish({"timeLimit"}, n_actions)
             # 5. behaviors in schedule order
